@@ -458,16 +458,22 @@ class NestedDictRAMDataStore(datastore.DataStore):
         raise custom_errors.NotFoundError(
             'No such study:', s_resource.name
         ) from e
-      # Store Study-related metadata into the database.
-      vz.metadata_util.merge_study_metadata(
-          study_node.study_proto.study_spec, copy.deepcopy(study_metadata)
-      )
       # Split the trial-related metadata by Trial.
       split_metadata: DefaultDict[str, List[UnitMetadataUpdate]] = (
           collections.defaultdict(list)
       )
       for md in copy.deepcopy(trial_metadata):
         split_metadata[md.trial_id].append(md)
+      # It's an error to attach metadata to a Trial that doesn't exist; check
+      # before anything is written so that a failed update changes nothing.
+      for trial_id in split_metadata:
+        t_resource = s_resource.trial_resource(trial_id)
+        if t_resource.trial_id not in study_node.trial_protos:
+          raise custom_errors.NotFoundError('No such trial:', t_resource.name)
+      # Store Study-related metadata into the database.
+      vz.metadata_util.merge_study_metadata(
+          study_node.study_proto.study_spec, copy.deepcopy(study_metadata)
+      )
       # Now, we update one Trial at a time:
       for trial_id, md_list in split_metadata.items():
         t_resource = s_resource.trial_resource(trial_id)
